@@ -339,9 +339,13 @@ impl AggregateExecutionEngine {
                 }
                 _ => {
                     for subgroups in self.group_values.values() {
-                        if let Some(group_value) = subgroups.get(&aggregate_index) {
-                            result_column.push(transform_value(group_value.clone())?);
-                        }
+                        // Every group gives exactly one value: a group in which no row qualified for this aggregate has no cell
+                        let group_value = match subgroups.get(&aggregate_index) {
+                            Some(group_value) => group_value.clone(),
+                            None => missing_group_value(&aggregate.aggregate)
+                        };
+
+                        result_column.push(transform_value(group_value)?);
                     }
                 }
             }
@@ -623,6 +627,14 @@ fn ensure_sum_fits(sum: &Value, value: &Value) -> ExecutionResult<()> {
     Ok(())
 }
 
+/// The value of an aggregate for a group in which no row qualified for it: COUNT is 0, the others are NULL
+fn missing_group_value(aggregate: &Aggregate) -> Value {
+    match aggregate {
+        Aggregate::Count(_, _) => Value::Int(0),
+        _ => Value::Null
+    }
+}
+
 fn extract_having_aggregates<'a>(aggregate_statement: &'a AggregateStatement) -> ExecutionResult<Vec<(usize, &'a Aggregate)>> {
     let mut having_aggregates = Vec::new();
     if let Some(having) = aggregate_statement.having.as_ref() {
@@ -650,6 +662,10 @@ fn accept_group<'a>(group_key_mapping: &HashMap<ExpressionTreeHash, usize>,
                     group_value: &HashMap<usize, Value>,
                     aggregate_statement: &AggregateStatement,
                     having: &ExpressionTree) -> ExecutionResult<bool> {
+    // A group in which no row qualified for an aggregate has no cell for it
+    let missing_count = missing_group_value(&Aggregate::Count(None, false));
+    let missing_value = Value::Null;
+
     let mut group_key_columns = HashMap::new();
     let mut group_value_columns = HashMap::new();
 
@@ -667,7 +683,9 @@ fn accept_group<'a>(group_key_mapping: &HashMap<ExpressionTreeHash, usize>,
 
         group_value_columns.insert(
             format!("{}_{}", aggregate_id, hash),
-            &group_value[&(aggregate_statement.aggregates.len() + having_aggregate_index)]
+            group_value
+                .get(&(aggregate_statement.aggregates.len() + having_aggregate_index))
+                .unwrap_or(if let Aggregate::Count(_, _) = aggregate { &missing_count } else { &missing_value })
         );
     }
 
